@@ -139,3 +139,9 @@ Proof. reflexivity. Qed.
 (* UART connect: 0xFF 0xFF 0x00 does not synchronise (the second 0xFF is taken as a size), a later 0xFF 0x00 does *)
 Example uart_connect_quirk : uart_connect [255; 255; 0; 7] = None /\ uart_connect [255; 255; 0; 7; 255; 0; 9] = Some [9].
 Proof. split; reflexivity. Qed.
+
+(* ---- one packet object, chunked transfer: same object, new data, lastPacket set for the final chunk *)
+Example chunked_transfer :
+  h_run (new_cpx 5 4 T_HOST [1; 2]) [PWrite; PMut (MData [3]); PMut (MLast true); PWrite; PMut (MFn 15); PEnc]
+  = [Ok [4; 0; 28; 5; 1; 2]; Ok [3; 0; 92; 5; 3]; Ok [92; 15; 3]].
+Proof. reflexivity. Qed.
